@@ -528,7 +528,7 @@ class MolGraph:
         :return: Subgraph
         """
         new_atoms = set(atoms)
-        atom_attrs = {atom: self._atom_attrs[atom] for atom in atoms}
+        atom_attrs = {atom: self._atom_attrs[atom] for atom in new_atoms}
         bond_attrs = {
             bond: attrs
             for bond, attrs in self._bond_attrs.items()
